@@ -383,10 +383,8 @@ def hang_reason(c):
 
 
 def hang_signature(c):
-    kv = c["kv"]
-    stages = kv["stages"].split(",")
-    if kv["term"] == "capture" and "nosuch" in stages and "YE" in stages[:stages.index("nosuch")] and int(kv["n"]) >= 2:
-        return "capture-start-failure-keeps-stderr-reader-while-waiting"
+    # no hang is excused any more: the one that was (`capture-start-failure-keeps-stderr-reader-while-waiting`) is repaired
+    # (fix F15, known_findings.json); if it returns it is reported like any other violation
     return None
 
 
